@@ -1,10 +1,12 @@
 (* C17 — round 5: the VM half of totality.  The simulation of ProofsSim4-6 is a FORWARD simulation (it constructs the run of
    the VM), so whenever the translator returns a command list for a well-formed program, the VM runs it to the end: no
    KeyError (every incremented register was set, every jump finds its label and its counter), no IndexError, and it halts
-   for every fuel above a bound.  What is NOT shown here: that the translator itself returns (no AssertionError). *)
+   for every fuel above a bound.  That the translator itself returns (no AssertionError) is ProofsTrTotal.v (round 6);
+   the two halves are put together at the end of this file. *)
 From Coq Require Import ZArith QArith List Bool Lia ZifyBool Setoid.
 Require Import QV.C17.Model QV.C17.Spec QV.C17.Proofs QV.C17.ProofsVM QV.C17.SimDefs QV.C17.ProofsTr3 QV.C17.ProofsSim4 QV.C17.ProofsSim6
-               QV.C17.ProofsBuild QV.C17.ProofsGuard QV.C17.ProofsStair.
+               QV.C17.ProofsBuild QV.C17.ProofsGuard QV.C17.ProofsStair QV.C17.ProofsTrTotal
+               QV.C17.GenLib QV.C17.Gen_linspace_obj QV.C17.GenObjEq QV.C17.Gen_linspace_tr QV.C17.GenTrEq.
 Import ListNotations.
 Local Open Scope Z_scope.
 
@@ -82,3 +84,40 @@ Qed.
 Lemma pipeline_runs_nonvacuous :
   exists prog cs, build_program wit_good = Ok prog /\ translate prog = Ok cs /\ (length cs = 36)%nat.
 Proof. eexists; eexists. split; [vm_compute; reflexivity|]. split; vm_compute; reflexivity. Qed.
+
+(* ---------------------------------------------------------------------------------------------------------------- *)
+(* round 6: the translator half (ProofsTrTotal.translate_total) at source level, and total correctness of the pipeline *)
+Theorem translator_returns : forall C s, src_wf C s = true ->
+  exists prog cs, build_program s = Ok prog /\ translate prog = Ok cs.
+Proof.
+  intros C s HW. destruct (build_total s []) as [prog EB]. exists prog.
+  destruct (translate_total true C prog (build_ok C s [] prog EB HW)) as [cs ET]. exists cs. split; assumption.
+Qed.
+
+Theorem pipeline_total : forall C s, src_wf C s = true -> guard_C17_key_collision s = true ->
+  exists n h t, (forall fuel, (n <= Pos.to_nat fuel)%nat -> pipeline fuel C s = Ok (h, t)) /\
+                plays h (fst (staircase s)) = true /\ Qeq_bool t (snd (staircase s)) = true.
+Proof.
+  intros C s HW HK. destruct (translator_returns C s HW) as (prog & cs & EB & ET).
+  destruct prog as [|x prog].
+  - assert (HP : forall fuel, pipeline fuel C s = Ok ([], 0%Q)) by (intros fuel; unfold pipeline; rewrite EB; reflexivity).
+    exists 0%nat, [], 0%Q. split; [intros fuel _; apply HP|].
+    apply (staircase_full C s 1%positive [] 0%Q HW HK (HP 1%positive)).
+  - destruct (pipeline_runs_if_translated C s (x :: prog) cs HW HK EB ET) as (n & h & t & Hrun & Hpl).
+    exists n, h, t. split; [|exact Hpl]. intros fuel Hle. unfold pipeline. rewrite EB. cbn [bind]. rewrite ET. cbn [bind].
+    rewrite run_vm_binary_unary. apply Hrun. exact Hle.
+Qed.
+
+(* non-vacuous: the witness source satisfies both hypotheses (its pipeline output has 21 steps, staircase_full_nonvacuous) *)
+Lemma pipeline_total_nonvacuous : src_wf 2 wit_good = true /\ guard_C17_key_collision wit_good = true.
+Proof. split; vm_compute; reflexivity. Qed.
+
+(* the same for the function translated from the current source text: `to_increment_commands` of /repo returns a command list
+   (raises nothing) on the node tree of every well-formed source *)
+Theorem source_translator_returns : forall C s prog, src_wf C s = true -> build_program s = Ok prog ->
+  exists cs, translate prog = Ok cs /\ gen_to_increment_commands (map embed_node prog) = Ok (map embed cs).
+Proof.
+  intros C s prog HW EB. destruct (translator_returns C s HW) as (prog' & cs & EB' & ET).
+  assert (prog' = prog) by congruence. subst prog'. exists cs. split; [exact ET|].
+  rewrite gen_to_increment_commands_eq, ET. reflexivity.
+Qed.
